@@ -479,3 +479,29 @@ contract(
     writes_fresh=CUR_FRESH + EV_FRESH, raises=["IntegrityError"],
     exc_ensures={"IntegrityError": ["not old(bucket_exists(storage, bucket_id))"]},
 )
+
+
+# -- C01: what is inserted comes back (one insert followed by a lookup, as a lemma over the two contracts and lemma F3) --------------
+def store_roundtrip(storage, bucket_id, event):
+    stored = storage.insert_one(bucket_id, event)
+    return storage.get_event(bucket_id, stored.id)
+
+
+contract(
+    "contracts.sqlite.store_roundtrip",
+    params={"storage": "SqliteStorage", "bucket_id": "str", "event": "Event"}, returns="Optional[Event]",
+    requires=["lazy_inv(storage)", "bucket_exists(storage, bucket_id)",
+              # the property's domain: instants from 1970 to 2100 (Event keeps instants at whole milliseconds)
+              "EPOCH <= event.timestamp and event.timestamp <= EPOCH + timedelta(days=47482)"],
+    ensures=[
+        "result is not None and result is not event and fresh(result) and fresh(result.data)",
+        "result.id == event.id and event.id == old(ev_max(storage)) + 1",
+        # the same instant (lemma F3: the float encoding of instants is lossless) and equal data (A-JSON)
+        "result.timestamp == old(event.timestamp)",
+        "result.data == old(event.data)",
+        # (the duration comes back as the difference of two decoded floats: NOT proved here, covered by the bounded check)
+    ],
+    modifies=["storage.last_commit", "storage.num_uncommitted_statements", "storage.conn.*", "alloc", "event.id"],
+    writes_fresh=CUR_FRESH + EV_FRESH, raises=["IntegrityError"],
+    exc_ensures={"IntegrityError": ["False"]},
+)
